@@ -105,23 +105,35 @@ func randOp(r *kit.Rand, sh *shadow) string {
 		return fmt.Sprintf("App %d %d", pickH(r, sh.slices), v())
 	case 27:
 		return fmt.Sprintf("GetSlice %d", pickH(r, sh.slices))
+	// (the counters below may run ahead of the realm's tables when a handle was
+	// invalid; every handle is validated by the realm, so that only yields "bad")
 	case 28:
+		sh.iptrs++
 		return fmt.Sprintf("PtrV %d", pickH(r, sh.nodes))
 	case 29:
+		sh.iptrs++
 		return fmt.Sprintf("PtrArr %d %d", pickH(r, sh.nodes), r.Range(0, 2))
 	case 30:
+		sh.iptrs++
 		return fmt.Sprintf("PtrElem %d %d", pickH(r, sh.slices), r.Range(0, 4))
 	case 31:
-		return fmt.Sprintf("SetPtr %d %d", pickH(r, sh.iptrs+2), v())
+		return fmt.Sprintf("SetPtr %d %d", pickH(r, sh.iptrs), v())
 	case 32:
-		return fmt.Sprintf("GetPtr %d", pickH(r, sh.iptrs+2))
+		return fmt.Sprintf("GetPtr %d", pickH(r, sh.iptrs))
 	case 33:
-		return kit.Pick(r, []string{"MkCounter", "MkPair"}) + fmt.Sprintf(" %d", v())
+		if r.Bool() {
+			sh.fns++
+			return fmt.Sprintf("MkCounter %d", v())
+		}
+		sh.fns += 2
+		return fmt.Sprintf("MkPair %d", v())
 	case 34:
+		sh.fns++
 		return fmt.Sprintf("MkAdder %d", pickH(r, sh.nodes))
 	case 35:
-		return fmt.Sprintf("CallFn %d %d", pickH(r, sh.fns+3), v())
+		return fmt.Sprintf("CallFn %d %d", pickH(r, sh.fns), v())
 	case 36:
+		sh.shapes++
 		if r.Bool() {
 			return fmt.Sprintf("MkSq %d", v())
 		}
@@ -129,11 +141,12 @@ func randOp(r *kit.Rand, sh *shadow) string {
 	case 37:
 		switch r.Intn(3) {
 		case 0:
-			return fmt.Sprintf("DupShape %d", pickH(r, sh.shapes+2))
+			sh.shapes++
+			return fmt.Sprintf("DupShape %d", pickH(r, sh.shapes-1))
 		case 1:
-			return fmt.Sprintf("Grow %d %d", pickH(r, sh.shapes+2), v())
+			return fmt.Sprintf("Grow %d %d", pickH(r, sh.shapes), v())
 		}
-		return fmt.Sprintf("Area %d", pickH(r, sh.shapes+2))
+		return fmt.Sprintf("Area %d", pickH(r, sh.shapes))
 	case 38:
 		return fmt.Sprintf("SetAny %d %d", pickH(r, sh.nodes), r.Range(0, 6))
 	default:
@@ -150,7 +163,7 @@ func gen(w *kit.Out, r *kit.Rand, tier string) {
 	}
 	nCases, nOps := 3, 35
 	if tier == "thorough" {
-		nCases, nOps = 60, 70
+		nCases, nOps = 40, 60
 	}
 	for c := 0; c < nCases; c++ {
 		w.Case(fmt.Sprintf("rand-%d", c))
